@@ -3,6 +3,7 @@ Model of `core/util/wmpt/proof.go` and `path.go` at /repo HEAD: GetBlockProof / 
 GetPath (markToCollect, collectNodes), Deserialize (deserializeTrie).  Core Lean only.
 -/
 import Verif.Model.WmptOps
+import Verif.Gen.Constants
 namespace Verif.Wmpt
 
 /-- one element of a decoded `PersistTrie.Pairs`: a nil pair (CBOR null), a pair whose bytes the CBOR layer rejects,
@@ -212,8 +213,33 @@ def markAll (hasDb : Bool) (s : Store) : WN → List (List Nib) → MRes
     | some e => { node := r.node, err := some e }
     | none => markAll hasDb s r.node ks
 
-/-- `GetPath(keys)`. Both collection strategies of the Go code (sequential; per-branch parallel for more than
-    `threshold` keys on a branch root) mark the same nodes; they are modelled by the one marking function. -/
+/-- the loop of the per-branch parallel marking over the children of a branch root: every key marks the subtree below
+    its first nibble (`markToCollect(node.Children[k[0]], k, 1)`) and the result is assigned to that child. Go runs the
+    keys in goroutines, serialised per first nibble by a mutex; the model runs them in list order
+    (`mark_parallel_eq_sequential` shows the result is that of the sequential strategy). -/
+def markKids (hasDb : Bool) (s : Store) : (Nib → WN) → List (List Nib) → (Nib → WN) × Option Err
+  | ch, [] => (ch, none)
+  | ch, [] :: _ => (ch, some .panic)                       -- `k[0]` of an empty key
+  | ch, (k :: ks) :: rest =>
+    let r := markToCollect hasDb s (fuelFor (k :: ks) - 1) (ch k) ks
+    match r.err with
+    | some e => (upd ch k r.node, some e)
+    | none => markKids hasDb s (upd ch k r.node) rest
+
+/-- the parallel strategy of `GetPath` (more than `pathParallelThreshold` keys and a branch root): the root is marked
+    first, then the keys mark its children -/
+def markParallel (hasDb : Bool) (s : Store) : WN → List (List Nib) → MRes
+  | .routing h ch w d _, keys =>
+    let r := markKids hasDb s ch keys
+    { node := .routing h r.1 w d true, err := r.2 }
+  | n, keys => markAll hasDb s n keys
+
+def WN.isRouting : WN → Bool
+  | .routing _ _ _ _ _ => true
+  | _ => false
+
+/-- `GetPath(keys)`: a branch root with more than `pathParallelThreshold` (path.go: `len(keys) > 10`, regenerated from
+    the source into Verif.Gen.Constants) requested keys is marked by the parallel strategy, everything else sequentially -/
 def getPath (t : WT) (keys : List (List Nib)) : WT × Res Bytes :=
   let r0 : Res WN := match t.root with
     | .hashRef h _ =>
@@ -226,7 +252,8 @@ def getPath (t : WT) (keys : List (List Nib)) : WT × Res Bytes :=
   match r0 with
   | .err e => (t, .err e)
   | .ok root =>
-    let m := markAll t.hasDb t.store root keys
+    let m := if root.isRouting && keys.length > Verif.Gen.Constants.pathParallelThreshold
+      then markParallel t.hasDb t.store root keys else markAll t.hasDb t.store root keys
     match m.err with
     | some .kvNotFound => ({ t with root := m.node }, .err .notFound)
     | some e => ({ t with root := m.node }, .err e)
